@@ -25,6 +25,21 @@ def mutations(rnd, b, ctx, per_record):
         m = bytearray(b); m[0:4] = (t & 0xFFFFFFFF).to_bytes(4, "big")
         out.append(bytes(m)); ctx.count("dec_tag_rewritten")
     out.append(b + bytes(rnd.getrandbits(8) for _ in range(rnd.randint(1, 9)))); ctx.count("dec_valid_with_tail")
+    # trailer and window surgery: the checksum trailer is 8 bytes (4 zero bytes + CRC-32); a decoder
+    # that tolerates another trailer width, a shifted or duplicated field would show only on inputs
+    # where whole fields are deleted, duplicated or overwritten by their neighbour
+    if n >= 12:
+        crc4 = b[-4:]
+        out.append(b[:-8] + crc4); ctx.count("dec_window_surgery")                 # padding deleted
+        out.append(b[:-8] + crc4 + crc4); ctx.count("dec_window_surgery")          # padding overwritten by the crc
+        out.append(b[:-8] + crc4 + b[-8:-4]); ctx.count("dec_window_surgery")      # halves swapped
+        out.append(b[:-8] + bytes(4) + b[-8:]); ctx.count("dec_window_surgery")    # padding doubled
+        out.append(b[:-4] + b[-8:]); ctx.count("dec_window_surgery")
+        for w in (1, 4, 8):
+            for _ in range(2):
+                q = rnd.randrange(0, n - w + 1)
+                out.append(b[:q] + b[q + w:]); ctx.count("dec_window_surgery")     # window deleted
+                out.append(b[:q + w] + b[q:]); ctx.count("dec_window_surgery")     # window duplicated
     # mutations of the body with the checksum recomputed: these get past the CRC and exercise the
     # decoder's own validation (version byte, option tags, type tag, length prefixes)
     import zlib
